@@ -341,6 +341,7 @@ def case_stock_driven(prog, cfg):
     sw.zero_prm = cfg.get("zero_prm")
     sw.layout = cfg.get("layout")
     sw.tiny_label = bool(cfg.get("tiny_label"))
+    sw.cancel_first = bool(cfg.get("cancel_first"))
     dist = cfg["dist"]
     case = SCase("stock-driven", "StockDrivenDSM.compute", cfg_desc(cfg))
     kind, r = run_guarded(lambda: inflow_driven(sw, dist, cfg))
@@ -414,7 +415,8 @@ def case_stock_driven(prog, cfg):
                         ("_stock_by_cohort", "StockDrivenDSM._compute_cohorts_and_inflow"), ("_outflow_by_cohort", "DynamicStockModel._compute_outflow")):
             check_linear(case, res3[k], drivers, k, qual)
             check_causal(case, res3[k], drivers, k, qual)
-            check_label_separate(case, res3[k], drivers, sw.labels, k, qual, 2 if k.startswith("_") else 1)
+            if not cfg.get("cancel_first"):      # the two labels are tied on purpose there
+                check_label_separate(case, res3[k], drivers, sw.labels, k, qual, 2 if k.startswith("_") else 1)
 
         def back():
             lm4, _, _ = make_lifetime(sw, dist, cfg["over"], inflow_at=cfg["inflow_at"], n_pts=cfg["n_pts"])
@@ -877,6 +879,8 @@ def dsm_configs(tier):
     # whole array must not touch the small label
     for dist in ("NormalLifetime", "FixedLifetime") if tier == "quick" else DISTS:
         out.append(dict(n_t=3, labels=("a",), dist=dist, over="all", n_pts=1, inflow_at="middle", tiny_label=True))
+    # two labels whose first-year values cancel exactly (a total over the labels is zero although neither label is)
+    out.append(dict(n_t=3, labels=("a",), dist="NormalLifetime", over="number", n_pts=1, inflow_at="middle", cancel_first=True))
     return out
 
 
